@@ -533,14 +533,36 @@ func (w *Worker) poolIntrinsic(full string, fn *ssa.Function, args []Val) (Val, 
 		t := v.(*Term)
 		return int(int64(w.concretize(t, "pool size")))
 	}
+	// sz: a size handed to the byte pool ends up in make([]byte, n) (directly for sizes outside
+	// the pooled classes, through the pool's New otherwise): same run-time check as makeslice,
+	// same engine allocation bound
+	sz := func(v Val) int {
+		t := v.(*Term)
+		bad := ts.Not(ts.Cmp(OUle, t, ts.Const(64, uint64(maxAlloc))))
+		if bad.isTrue() {
+			w.goPanic("makeslice", "makeslice: len out of range (pbytes)")
+		}
+		if !bad.isFalse() {
+			w.oblige(bad, "makeslice", "makeslice: len out of range (pbytes)")
+		}
+		if !t.IsConst() {
+			w.assume(ts.Cmp(OUle, t, ts.Const(64, engineAllocCap)))
+		}
+		n := int(int64(w.concretize(t, "pool size")))
+		if n > engineAllocCap {
+			w.notes["allocation of more than 4Mi elements not followed (engine bound) in "+shortFn(w.libSite())] = true
+			panic(pathEnd{"alloc-bound"})
+		}
+		return n
+	}
 	switch full {
 	case "github.com/gobwas/pool/pbytes.GetLen":
-		n := ci(args[0])
+		n := sz(args[0])
 		return w.poolGetBytes(n, n), true
 	case "github.com/gobwas/pool/pbytes.GetCap":
-		return w.poolGetBytes(0, ci(args[0])), true
+		return w.poolGetBytes(0, sz(args[0])), true
 	case "github.com/gobwas/pool/pbytes.Get":
-		n, c := ci(args[0]), ci(args[1])
+		n, c := sz(args[0]), sz(args[1])
 		if n > c {
 			w.goPanic("explicit", "requested length is greater than capacity")
 		}
